@@ -61,7 +61,7 @@ def run_tlc(module, cfg, workdir, env=None, workers=None, simulate=None, depth=N
         cfg = os.path.join(SPEC, cfg)
     meta = os.path.join(workdir, "tlc-meta-%d-%d" % (os.getpid(), int(time.time() * 1e6) % 10**9))
     os.makedirs(meta, exist_ok=True)
-    java = ["java", "-XX:+UseParallelGC", "-Xmx" + heap]
+    java = ["java", "-XX:+UseParallelGC", "-Xmx" + heap, "-Xss512m"]
     if dfs:
         java.append("-Dtlc2.tool.queue.IStateQueue=StateDeque")
     cmd = java + ["-cp", TLA_JAR, "tlc2.TLC", "-metadir", meta, "-noGenerateSpecTE", "-config", cfg]
@@ -179,14 +179,23 @@ class Ctx:
             self.states += r.distinct
             self.transitions += r.generated
             if not r.finished:
-                raise MachineryError("trace validation run of %s failed:\n%s" % (module, "\n".join(r.out.splitlines()[-40:])))
+                lines = r.out.splitlines()
+                k = next((i for i, x in enumerate(lines) if x.startswith("Error:")), max(0, len(lines) - 40))
+                raise MachineryError("trace validation run of %s failed:\n%s" % (module, "\n".join(lines[k:k + 30])))
             for v in r.tagged("VERDICT"):
-                # <<"VERDICT", id, ok, clause, pos, kf>>
+                # single-clause monitors: <<"VERDICT", id, ok, clause, pos, kf>>
+                # multi-clause monitors:  <<"VERDICT", id, ok, <<<<clause, pos>>, ...>>>>
                 tid = v[1]
                 if tid in verdicts:
                     raise MachineryError("two verdicts for trace %s" % tid)
-                verdicts[tid] = {"ok": v[2], "clause": v[3] if len(v) > 3 else "", "pos": v[4] if len(v) > 4 else 0,
-                                 "kf": v[5] if len(v) > 5 else ""}
+                if len(v) == 4 and isinstance(v[3], list):
+                    fl = [(f[0], f[1], f[2] if len(f) > 2 else "") for f in v[3]]
+                    verdicts[tid] = {"ok": v[2], "fails": fl, "clause": fl[0][0] if fl else "", "pos": fl[0][1] if fl else 0, "kf": ""}
+                else:
+                    d = {"ok": v[2], "clause": v[3] if len(v) > 3 else "", "pos": v[4] if len(v) > 4 else 0,
+                         "kf": v[5] if len(v) > 5 else ""}
+                    d["fails"] = [] if d["ok"] else [(d["clause"], d["pos"], d["kf"])]
+                    verdicts[tid] = d
         missing = [i for i in ids if i not in verdicts]
         if missing:
             raise MachineryError("%d traces got no verdict from %s (first: %s)" % (len(missing), module, missing[:3]))
@@ -194,13 +203,22 @@ class Ctx:
         return verdicts
 
     # ---------------------------------------------------------------- verdicts
-    def judge(self, traces, verdicts, describe=None):
-        """Turn monitor verdicts into VIOLATION / KNOWN-FINDING records."""
+    def judge(self, traces, verdicts, families=None, classify=None):
+        """Turn monitor verdicts into VIOLATION / KNOWN-FINDING records.
+        families: only clauses with one of these prefixes belong to this property (others are ignored here and
+        reported by the check that owns them); a clause starting with "H." is a machinery failure.
+        classify(trace, clause, pos) -> known-finding key or None (checks whose deviation matching is done in Python
+        on top of the monitor's verdict)."""
         by_id = {t["id"]: t for t in traces}
         for tid, v in verdicts.items():
-            if v["ok"]:
-                continue
-            self.fail(v["clause"], by_id[tid], kf=v.get("kf") or None, pos=v.get("pos"))
+            for (clause, pos, kf) in v["fails"]:
+                if clause.startswith("H."):
+                    raise MachineryError("monitor reports a harness inconsistency %s in trace %s at %s" % (clause, tid, pos))
+                if families and not any(clause.startswith(f) for f in families):
+                    continue
+                if not kf and classify:
+                    kf = classify(by_id[tid], clause, pos)
+                self.fail(clause, by_id[tid], kf=kf or None, pos=pos)
 
     def fail(self, clause, case, kf=None, pos=None, detail=None):
         if kf and kf in self.kf_open:
